@@ -32,7 +32,7 @@ struct In {
     bool sub = true;  // substitute_out_of_range for Latin-1 targets
 };
 
-enum { OUT_CAP = 1280 };
+enum { OUT_CAP = 16640 };
 struct Out {
     vf::OutKind kind = vf::OK;
     char what[128] = {0};
